@@ -240,6 +240,47 @@ pub fn run_case(case: &mut Case) {
                 );
             }
         }
+        // (i'') a cluster of a declared flag letter and an undeclared one is an ordinary word:
+        // whatever the outcome, nothing else of the line may get lost (hook oracles in `run`)
+        {
+            let mut shorts: Vec<char> = b
+                .alpha
+                .flags
+                .iter()
+                .flat_map(|n| n.shorts.iter().copied())
+                .collect();
+            shorts.sort_by_key(|c| std::cmp::Reverse(c.len_utf8()));
+            if let Some(&c) = shorts.first() {
+                let c = if rng.chance(1, 3) { *rng.pick(&shorts) } else { c };
+                let bounds = boundaries_before_dd(&line);
+                let at = *rng.pick(&bounds);
+                let mut argv = line.argv.clone();
+                argv.insert(at, format!("-{}{}", c, FOREIGN_SHORT).into_bytes());
+                let (out, _) = b.run(case, &argv, "insert:cluster-with-undeclared-letter");
+                if let crate::outcome::Outcome::Value(v) = &out {
+                    // accepted: the word went to a positional, everything else is as before
+                    let mut leaves = Vec::new();
+                    v.byte_leaves(&mut leaves);
+                    let mut before = Vec::new();
+                    d.value.byte_leaves(&mut before);
+                    // (`last()` keeps one of several occurrences by design)
+                    let has_last = b.spec.pretty().contains(".last()");
+                    if !has_last && before.iter().any(|t| !leaves.contains(t)) {
+                        case.rep.violation(
+                            "insert:cluster-with-undeclared-letter:value-lost",
+                            "conservation",
+                            case.index,
+                            b.detail(
+                                &argv,
+                                "insert:cluster-with-undeclared-letter",
+                                "every value of the accepted line still delivered",
+                                &out,
+                            ),
+                        );
+                    }
+                }
+            }
+        }
         // (i) insertions
         for ins in insertions(&b, &units, &line, &mut rng, case.thorough) {
             let class = format!("insert:{}", ins.kind);
